@@ -32,6 +32,7 @@ import (
 	"go/printer"
 	"go/token"
 	"os"
+	"os/exec"
 	"path/filepath"
 	"sort"
 	"strconv"
@@ -469,7 +470,11 @@ func main() {
 	flag.Parse()
 	gs := *goroot
 	if gs == "" {
-		gs = filepath.Join(os.Getenv("GOROOT"), "src")
+		gr := os.Getenv("GOROOT")
+		if o, err := exec.Command("go", "env", "GOROOT").Output(); err == nil && len(bytes.TrimSpace(o)) > 0 {
+			gr = string(bytes.TrimSpace(o))
+		}
+		gs = filepath.Join(gr, "src")
 	}
 	gs, _ = filepath.EvalSymlinks(gs)
 
